@@ -12,8 +12,10 @@ import (
 	"errors"
 	"fmt"
 	"io"
+	"math"
 	"net"
 	"net/http"
+	"os"
 	"regexp"
 	"sort"
 	"strings"
@@ -49,6 +51,7 @@ type sessionServer struct {
 	lastCheck string
 	ids       map[string]uuid.UUID
 	fault     string // how hasJoined misbehaves for the current session ("" = it answers properly)
+	props     string // the properties array of the profile it answers with ("" = an empty array)
 }
 
 func (s *sessionServer) RoundTrip(req *http.Request) (*http.Response, error) {
@@ -92,7 +95,12 @@ func (s *sessionServer) RoundTrip(req *http.Request) (*http.Response, error) {
 			return resp(204, ""), nil
 		}
 		id := s.ids[name]
-		return resp(200, fmt.Sprintf(`{"id":"%s","name":%q,"properties":[]}`, strings.ReplaceAll(id.String(), "-", ""), name)), nil
+		nameJSON, _ := json.Marshal(name)
+		props := s.props
+		if props == "" {
+			props = "[]"
+		}
+		return resp(200, fmt.Sprintf(`{"id":"%s","name":%s,"properties":%s}`, strings.ReplaceAll(id.String(), "-", ""), nameJSON, props)), nil
 	}
 	return resp(404, "not found"), nil
 }
@@ -317,6 +325,54 @@ func session(c *vm.Ctx, r *vm.Rand, si int, sess *sessionServer) {
 	}
 	transport := []string{"tcp", "pipe"}[r.Intn(2)]
 	qkind := []string{"linked", "channel"}[r.Intn(2)]
+	// second blind-spot review: dimensions that had one value (drawn from a stream of their own, so that the draws above
+	// and below are what they were)
+	x := c.Rand(fmt.Sprintf("session-extra-%d", si))
+	nameKind := "plain"
+	nk := x.Intn(8)
+	if online && nk == 2 {
+		nk = 0
+	}
+	switch nk {
+	case 0:
+		// characters that mean something in the query string the server sends to the session service, in JSON, in a path
+		name = []string{"a b", "a+b", "a&b=c", "x&serverId=1", "100%", "a%20b", "q?x#y", "semi;colon", "sl/ash", `quo"te`, `back\slash`, "eq=", "A.B-C~D", "sp ace+plus%2B", " lead", "trail "}[x.Intn(16)]
+		nameKind = "url-special"
+	case 1:
+		// the length prefix of the name takes two bytes from 128 bytes on
+		name = strings.Repeat("n", []int{17, 127, 128, 129, 255, 256, 300}[x.Intn(7)]-3) + fmt.Sprintf("%03d", x.Intn(1000))
+		if x.Bool() {
+			name = "ü" + name[2:]
+		}
+		nameKind = "long"
+	}
+	extremePrios := x.Intn(4) == 0
+	entry := "JoinServerWithOptions"
+	if transport == "tcp" && qkind == "linked" {
+		entry = []string{"JoinServerWithOptions", "JoinServer", "JoinServerWithDialer"}[x.Intn(3)]
+	}
+	withContext := entry == "JoinServerWithOptions" && x.Intn(3) == 0
+	addrForm := "host:port"
+	if transport == "pipe" {
+		addrForm = []string{"host:port", "host:port", "host", "host:0xport", "[v6]:port"}[x.Intn(5)]
+	}
+	sessProps := ""
+	if online && x.Intn(3) == 0 {
+		sessProps = []string{
+			`[{"name":"textures","value":"eyJ0aW1lc3RhbXAiOjF9","signature":"c2lnbmF0dXJl"}]`,
+			`[{"name":"textures","value":"eyJ0aW1lc3RhbXAiOjF9"}]`,
+			`[{"name":"textures","value":"` + strings.Repeat("QUJD", 600) + `","signature":"` + strings.Repeat("U0lH", 171) + `"},{"name":"second","value":""}]`,
+		}[x.Intn(3)]
+	}
+	// one session per shard and sixty carries a bundle as large as the library's reader takes (4095 packets; the protocol's
+	// limit is 4096, which the library refuses - see VERIF_PENDING below)
+	bigBundle := si%60 == 17 && !nearMax
+	if bigBundle {
+		chkKind, accept = "monitor", true
+		if threshold == 0 || threshold == 1 {
+			threshold = 64 // every packet compressed costs ~3 ms each under the race detector (zlib writer set-up)
+		}
+	}
 	// the configuration step: the minimal one (finish + acknowledgement), or the handler the library itself ships
 	var cfgH server.ConfigHandler = cfgHandler{}
 	cfgKind := "finish-only"
@@ -371,6 +427,9 @@ func session(c *vm.Ctx, r *vm.Rand, si int, sess *sessionServer) {
 		// large handler sets with many priority ties (sorting algorithms change behaviour with size)
 		ng, ns = r.Range(0, 40), r.Range(0, 40)
 	}
+	if bigBundle {
+		ng, ns = min(ng, 6), min(ns, 6) // thousands of packets: keep the number of invocations modest
+	}
 	// the ids with specific handlers (AddListener takes ids of the protocol's table only): one to three distinct ones,
 	// so that the table of one id can be told from the table of another
 	var watched []int32
@@ -387,6 +446,10 @@ func session(c *vm.Ctx, r *vm.Rand, si int, sess *sessionServer) {
 	pickWatched := func() int32 { return watched[r.Intn(len(watched))] }
 	var specs []handlerSpec
 	prios := []int{-1, 0, 0, 1, 5}
+	if extremePrios {
+		// the ends of int: a comparison by subtraction wraps around there
+		prios = []int{math.MinInt, math.MinInt + 1, -1, 0, 0, 1, math.MaxInt - 1, math.MaxInt}
+	}
 	for i := 0; i < ng; i++ {
 		specs = append(specs, handlerSpec{generic: true, priority: prios[r.Intn(len(prios))], id: pickWatched()})
 	}
@@ -426,6 +489,31 @@ func session(c *vm.Ctx, r *vm.Rand, si int, sess *sessionServer) {
 		s2c = append(s2c, step{kind: "packet", id: id, seq: seq, size: sizeOf()})
 		seq++
 	}
+	bigBundleSize := 0
+	if bigBundle {
+		bigBundleSize = 1000 + x.Intn(3000)
+		if (c.Shard+si/60)%2 == 0 {
+			bigBundleSize = 4095
+		}
+		if os.Getenv("VERIF_PENDING") != "" {
+			bigBundleSize = 4096 // what the protocol allows (BundlerInfo.BUNDLE_SIZE_LIMIT); the library's reader gives up at the 4096th packet
+		}
+		group++
+		s2c = append(s2c, step{kind: "bundle-open", inGroup: group})
+		for k := 0; k < bigBundleSize; k++ {
+			id := int32(x.Range(1, idTop))
+			if x.Intn(3) == 0 {
+				id = watched[x.Intn(len(watched))]
+			}
+			s2c = append(s2c, step{kind: "packet", id: id, seq: seq, size: x.Intn(24), inGroup: group})
+			seq++
+		}
+		s2c = append(s2c, step{kind: "bundle-close", inGroup: group})
+		for k := x.Intn(4); k > 0; k-- { // and something after it
+			s2c = append(s2c, step{kind: "packet", id: watched[x.Intn(len(watched))], seq: seq, size: x.Intn(24)})
+			seq++
+		}
+	}
 	// (nearMax) one packet each way grows to the limit: in one direction id and body together take exactly 2^21
 	// bytes (the largest the library's reader takes; the frame length needs four bytes when compression is off),
 	// in the other 2^21-6 .. 2^21-1 (the largest three-byte frame length); the directions alternate
@@ -449,12 +537,16 @@ func session(c *vm.Ctx, r *vm.Rand, si int, sess *sessionServer) {
 	if r.Intn(4) == 0 && seq > 0 && len(specs) > 0 && !nearMax {
 		failAt = r.Intn(int(seq))
 	}
+	if bigBundle {
+		failAt = -1
+	}
 	failLabel := -1
 	if failAt >= 0 {
 		failLabel = r.Intn(len(specs))
 	}
 	wit := func() any {
 		return map[string]any{"threshold": threshold, "name": name, "checker_accepts": accept, "login_checker": chkKind, "bot_announces_own_uuid": ownUUID, "near_max_packet_s2c_seq": bigS2C, "near_max_packet_c2s_seq": bigC2S, "near_max_id_plus_body_s2c": bigS2CTotal, "near_max_id_plus_body_c2s": bigC2STotal, "online_mode": online, "transport": transport, "bot_queue": qkind, "config_handler": cfgKind,
+			"name_kind": nameKind, "name_bytes": len(name), "extreme_priorities": extremePrios, "join_entry_point": entry, "join_with_context": withContext, "address_form": addrForm, "session_profile_properties": sessProps, "big_bundle_packets": bigBundleSize,
 			"packets_server_to_client": seq, "packets_client_to_server": nC2S, "bundles": group, "handlers": fmt.Sprintf("%+v", specs), "watched_ids": watched, "fail_at_seq": failAt, "fail_handler": failLabel}
 	}
 	c.Inflight(fmt.Sprintf("session %d %v", si, wit()))
@@ -505,7 +597,7 @@ func session(c *vm.Ctx, r *vm.Rand, si int, sess *sessionServer) {
 		opts.QueueRead = queue.NewChannelQueue[pk.Packet](4096)
 		opts.QueueWrite = queue.NewChannelQueue[pk.Packet](4096)
 	}
-	addr := "verif.test:25565"
+	addr := map[string]string{"host:port": "verif.test:25565", "host": "verif.test", "host:0xport": "verif.test:0x63dd", "[v6]:port": "[::1]:25565"}[addrForm]
 	var ln *mcnet.Listener
 	if transport == "tcp" {
 		l, err := mcnet.ListenMC("127.0.0.1:0")
@@ -570,14 +662,26 @@ func session(c *vm.Ctx, r *vm.Rand, si int, sess *sessionServer) {
 	}})
 
 	fault := ""
-	if online && r.Intn(3) == 0 && !nearMax {
+	if online && r.Intn(3) == 0 && !nearMax && !bigBundle {
 		fault = []string{"403-json", "429-json", "200-empty-object", "500-html"}[r.Intn(4)]
 	}
 	sess.mu.Lock()
-	sess.fault = fault
+	sess.fault, sess.props = fault, sessProps
 	sess.mu.Unlock()
+	if withContext {
+		opts.Context = context.WithValue(context.Background(), ctxKey{}, si)
+	}
 	var joinErr error
-	if c.Guard("join", wit, func() { joinErr = cl.JoinServerWithOptions(addr, opts) }) {
+	if c.Guard("join", wit, func() {
+		switch entry {
+		case "JoinServer":
+			joinErr = cl.JoinServer(addr)
+		case "JoinServerWithDialer":
+			joinErr = cl.JoinServerWithDialer(&net.Dialer{}, addr)
+		default:
+			joinErr = cl.JoinServerWithOptions(addr, opts)
+		}
+	}) {
 		return
 	}
 	if fault != "" {
@@ -690,7 +794,11 @@ func session(c *vm.Ctx, r *vm.Rand, si int, sess *sessionServer) {
 		return
 	}
 	if chkKind != "monitor" {
-		chk.gotProt, chk.gotName = bot.ProtocolVersion, name // the monitor's checker was not installed
+		chk.gotProt, chk.gotName, chk.gotID = bot.ProtocolVersion, name, gp.id // the monitor's checker was not installed
+	}
+	if chk.gotID != gp.id {
+		c.Violation("identity/checker-saw-another-uuid", fmt.Sprintf("the login checker was asked about UUID %v, the player was then handed to the game as %v", chk.gotID, gp.id), wit())
+		return
 	}
 	if gp.protocol != bot.ProtocolVersion || chk.gotProt != bot.ProtocolVersion || chk.gotName != name {
 		c.Violation("identity/protocol-or-checker-args", fmt.Sprintf("server got protocol %d (checker %d, name %q), bot speaks %d", gp.protocol, chk.gotProt, chk.gotName, bot.ProtocolVersion), wit())
@@ -711,6 +819,10 @@ func session(c *vm.Ctx, r *vm.Rand, si int, sess *sessionServer) {
 	}
 	// client -> server stream
 	if failAt < 0 {
+		if bigBundleSize == 4096 && len(got) != int(seq) {
+			c.Violation("bundle/4096-packets-refused", fmt.Sprintf("a bundle of 4096 packets (the protocol's limit) was not handled: the bot handled %d of %d packets, HandleGame returned %v", len(got), seq, hgErr), wit())
+			return
+		}
 		if len(gp.gotC2S) != nC2S {
 			c.Violation("play/c2s-lost", fmt.Sprintf("server received %d of %d packets (server error: %v)", len(gp.gotC2S), nC2S, gp.serverErr), wit())
 			return
@@ -867,6 +979,38 @@ func session(c *vm.Ctx, r *vm.Rand, si int, sess *sessionServer) {
 		c.Cover("dispatch.AddListener-with-several-handlers")
 	}
 	c.Cover("join.checker." + chkKind)
+	if chkKind == "monitor" {
+		c.Cover("join.checker-saw-the-uuid-of-the-game")
+	}
+	c.Cover("join.via." + entry)
+	if withContext {
+		c.Cover("join.with-context-in-options")
+	}
+	c.Cover("join.address." + addrForm)
+	if nameKind != "plain" {
+		c.Cover("join.name." + nameKind)
+		if online {
+			c.Cover("join.online.name." + nameKind)
+		}
+		if len(name) >= 128 {
+			c.Cover("join.name.128-bytes-or-more")
+		}
+	}
+	if sessProps != "" {
+		c.Cover("join.online.profile-with-properties")
+	}
+	if extremePrios && (len(gs) > 1 || mostSpecific > 1) {
+		c.Cover("dispatch.priorities-at-the-ends-of-int")
+	}
+	if bigBundle && failAt < 0 {
+		c.Cover("bundle.thousands-of-packets")
+		if bigBundleSize == 4095 {
+			c.Cover("bundle.4095-packets")
+		}
+		if bigBundleSize == 4096 {
+			c.Cover("bundle.4096-packets")
+		}
+	}
 	if !online && ownUUID {
 		c.Cover("join.offline.bot-announced-own-uuid") // identity/* above: the offline UUID was assigned and adopted all the same
 	}
@@ -907,6 +1051,8 @@ func refOfflineUUID(name string) uuid.UUID {
 	return uuid.UUID(h)
 }
 
+type ctxKey struct{}
+
 type listedClient struct{ kicked bool }
 
 func (l *listedClient) SendDisconnect(chat.Message) { l.kicked = true }
@@ -916,12 +1062,43 @@ func run(c *vm.Ctx) {
 	sess := &sessionServer{joined: map[string]string{}, ids: map[string]uuid.UUID{}}
 	http.DefaultClient.Transport = sess
 	r := c.Rand("sessions")
-	for i := 0; i < c.Scale(480, 8000); i++ {
-		session(c, r, i, sess)
-	}
-	serverIDSessions(c, sess)
+	timed("sessions", func() {
+		for i := 0; i < c.Scale(480, 8000); i++ {
+			t, w := vm.CPUSeconds(), time.Now()
+			session(c, r, i, sess)
+			if os.Getenv("VERIF_TIMING") != "" && time.Since(w) > time.Second {
+				fmt.Fprintf(os.Stderr, "TIMING   session %d: %.2f s CPU %.2f s wall\n", i, vm.CPUSeconds()-t, time.Since(w).Seconds())
+			}
+		}
+	})
+	timed("server-id sessions", func() { serverIDSessions(c, sess) })
+	shr := c.Rand("shared-server")
+	timed("shared server", func() {
+		for i := 0; i < c.Scale(16, 320); i++ {
+			sharedServer(c, shr, i*c.NShards+c.Shard, sess)
+		}
+	})
 	pr := c.Rand("ping")
-	for i := 0; i < c.Scale(80, 1600); i++ {
-		ping(c, pr, i*c.NShards+c.Shard)
+	timed("ping", func() {
+		for i := 0; i < c.Scale(80, 1600); i++ {
+			ping(c, pr, i*c.NShards+c.Shard)
+		}
+	})
+	or := c.Rand("ping-own-handler")
+	timed("ping, own handler", func() {
+		for i := 0; i < c.Scale(72, 1440); i++ {
+			pingOwnHandler(c, or, i*c.NShards+c.Shard)
+		}
+	})
+}
+
+// timed prints what a section cost when VERIF_TIMING is set (CPU seconds as well: the machine is shared).
+func timed(name string, fn func()) {
+	if os.Getenv("VERIF_TIMING") == "" {
+		fn()
+		return
 	}
+	t, w := vm.CPUSeconds(), time.Now()
+	fn()
+	fmt.Fprintf(os.Stderr, "TIMING %-22s %.2f s CPU %.2f s wall\n", name, vm.CPUSeconds()-t, time.Since(w).Seconds())
 }
